@@ -42,11 +42,15 @@ type Config struct {
 	SolverLog       string
 	ValidatePerCell int
 	Params          map[string]int
+	CLIPackage      string // the command whose main() vrt.RunCLI runs
 
 	embedPath string
 }
 
 func (c *Config) defaults() {
+	if c.CLIPackage == "" {
+		c.CLIPackage = "github.com/HobbyOSs/gosk/cmd/gosk"
+	}
 	if c.FeasTimeoutMs == 0 {
 		c.FeasTimeoutMs = 10000
 	}
@@ -156,6 +160,12 @@ var interpInitPrefixes = []string{
 	"github.com/morikuni/failure",
 	"github.com/zeroflucs-given/generics",
 	"github.com/harakeishi/gats",
+	// the source-decoding step of the command line (C19)
+	"golang.org/x/text/encoding",
+	"golang.org/x/text/transform",
+	"golang.org/x/text/internal/identifier",
+	"golang.org/x/text/internal/utf8internal",
+	"golang.org/x/net/html/charset",
 }
 
 var interpInitStd = map[string]bool{
@@ -271,6 +281,20 @@ func (in *Interp) InitPackages(pkg *ssa.Package) (err error) {
 	return nil
 }
 
+// InitCLI additionally initialises the command package (and, through it,
+// the charset tables its source-decoding step uses).
+func (in *Interp) InitCLI() error {
+	pkg := in.prog.ImportedPackage(in.cfg.CLIPackage)
+	if pkg == nil {
+		return fmt.Errorf("command package %s not loaded", in.cfg.CLIPackage)
+	}
+	saved := in.maxSteps
+	in.maxSteps = in.cfg.MaxSteps * 200
+	err := in.InitPackages(pkg)
+	in.maxSteps = saved
+	return err
+}
+
 func panicText(p interface{}) string {
 	switch p := p.(type) {
 	case Inconclusive:
@@ -323,6 +347,7 @@ type CellResult struct {
 	AssertsUnsat int
 	Validations  []*ValidationSample
 	Prefixes     [][]int // discover mode
+	ShortCells   int     // discover mode: paths that ended before the cell depth
 	Wall         float64
 	TruncatedAt  int
 }
@@ -374,6 +399,15 @@ func (in *Interp) RunHarness(fn *ssa.Function, prefix []int, prefixArity []int) 
 		p := in.path
 		if progress {
 			fmt.Fprintf(os.Stderr, "path %d: %s decisions=%d steps=%d queries=%d %.2fs [%s]\n", res.Paths, outcome, p.pos, in.steps, in.Stats.SolverQueries, time.Since(tp).Seconds(), in.pathLabel())
+			if os.Getenv("GOSYM_PROGRESS") == "2" {
+				for i, c := range p.pc {
+					cs := c.String()
+					if len(cs) > 160 {
+						cs = cs[:160] + "…"
+					}
+					fmt.Fprintf(os.Stderr, "    pc[%d] %s\n", i, cs)
+				}
+			}
 		}
 		decs = p.decs
 		in.path = nil
@@ -473,6 +507,17 @@ func (in *Interp) runPath(fn *ssa.Function, decs []decision, checkAt int, res *C
 					res.Validations = append(res.Validations, vs)
 				}
 			}
+		}
+		// discovery: a path that ends before the cell depth is reached is a
+		// cell of its own (its whole decision sequence), so that the cell
+		// phase — whose results are the ones reported — runs it too
+		if in.cfg.DiscoverDepth > 0 && outcome != "discover" && outcome != "assume" && outcome != "infeasible" {
+			var pre []int
+			for _, d := range p.decs[:p.pos] {
+				pre = append(pre, d.alt)
+			}
+			res.Prefixes = append(res.Prefixes, pre)
+			res.ShortCells++
 		}
 		for _, v := range in.violations[in.violationsMark:] {
 			res.Violations = append(res.Violations, v)
